@@ -438,6 +438,8 @@ def run(run: Run):
     run.rule('C11.R7', 'an area argument enumerates every cell incl. the last row/column, each once (shared with C02.R2/R4)')
     borrow(run, 'C11.R7', c02.r2, src)
     borrow(run, 'C11.R7', c02.r4_r5, src)
+    from ..grammar import get_grammar as _gg
+    borrow(run, 'C11.R7', c02.r1, src, _gg(src))          # the corners of the area as the reference regex groups give them
     run.floor('C11.R7', 14)
     run.floor('C11.R1', 4)
     run.floor('C11.R2', 50)
